@@ -239,12 +239,12 @@ def text_field_faithful(tree, ob):
                     ob.site('tcpcl/formats.py', c, 'StrLenFieldUtf8.{}: strict text coding'.format(m.name))
                 else:
                     ob.violate('tcpcl/formats.py', 'StrLenFieldUtf8.' + m.name, src(c), 'the node ID text is decoded leniently: octets that are not UTF-8 vanish (or are replaced), so an announced node ID that '
-                               'differs from the certified one compares equal to it', c)
+                               'differs from the certified one compares equal to it', c, sure=True)
             elif nm in ('plain_str', 'str', 'bytes'):
                 continue
             else:
                 ob.violate('tcpcl/formats.py', 'StrLenFieldUtf8.' + m.name, src(c)[:60], 'the text of the field is re-coded ({}): the node ID reported and compared is not the one the peer announced '
-                           '(composed and decomposed spellings become equal)'.format(nm), c)
+                           '(composed and decomposed spellings become equal)'.format(nm), c, sure=True)
 
 
 def c15c(tree, ob):
